@@ -195,7 +195,42 @@ fn case(bytes: &[u8], col: &mut Collector) -> Result<(), Failure> {
         // mul_by_a agrees with multiplication by the coefficient
         0 => {
             let spec = ScalarSpec::gen(&mut ch);
-            let x: Fq = spec.to_f();
+            let mut x: Fq = spec.to_f();
+            // a third of the elements are chosen by their internal (Montgomery) representation:
+            // limb patterns, and residues just below the modulus / just above 2^255
+            let mut how = "value";
+            if ch.chance(85) {
+                use ark_ff::BigInt;
+                let q = Fq::MODULUS;
+                let pat = ch.u16();
+                let mut limbs = [0u64; 4];
+                for l in 0..4 {
+                    limbs[l] = match (pat >> (2 * l)) & 3 {
+                        0 => 0,
+                        1 => 1,
+                        2 => u64::MAX,
+                        _ => (pat as u64 + 3).wrapping_mul(0x9e37_79b9_7f4a_7c15).rotate_left(13 * (l as u32 + 1)),
+                    };
+                }
+                let mut r = BigInt::<4>(limbs);
+                match ch.below(4) {
+                    0 => {
+                        // q - 1 - small
+                        r = q;
+                        r.sub_with_borrow(&BigInt::<4>::from(1 + ch.byte() as u64));
+                    }
+                    1 => {
+                        // 2^255 + small (inside [2^255, q))
+                        r = BigInt::<4>([ch.byte() as u64, 0, 0, 1u64 << 63]);
+                    }
+                    _ => {}
+                }
+                while r >= q {
+                    r.0[3] >>= 1;
+                }
+                x = Fq::new_unchecked(r);
+                how = "montgomery-residue";
+            }
             let got = <Parameters as SWCurveConfig>::mul_by_a(x);
             let want = a_c * x;
             let own = (&a * big(&x)) % &q;
@@ -203,6 +238,9 @@ fn case(bytes: &[u8], col: &mut Collector) -> Result<(), Failure> {
                 return Err(Failure::new("C14:mul_by_a", format!("mul_by_a(x) != a * x for x = {}", spec.short()), json!({"x": spec.short(), "x_value": big(&x).to_string()})));
             }
             col.class("mul_by_a");
+            if how == "montgomery-residue" {
+                col.class("mul_by_a:chosen-residue");
+            }
             if matches!(spec, ScalarSpec::Rand(_)) {
                 col.nontrivial(fp_of(&("mul_by_a", spec.clone())));
             }
@@ -266,7 +304,7 @@ pub fn run(tier: &str, seed: u64) -> i32 {
     if rep.outcome.found.is_empty() {
         rep.outcome.merge(search("c14/generated", seed, n, 24, &|b, col| case(b, col)));
     }
-    for (c, f) in [("mul_by_a", 0.3), ("point:from-random-x", 0.05), ("point:k*G", 0.05)] {
+    for (c, f) in [("mul_by_a", 0.3), ("point:from-random-x", 0.05), ("point:k*G", 0.05), ("mul_by_a:chosen-residue", 0.1)] {
         rep.required_classes.push((c.to_string(), f));
     }
     rep.finish()
